@@ -1,15 +1,5 @@
-mod cli;
-mod gen;
-mod glue;
-mod oracle;
-mod props;
-mod refcfr;
-mod runner;
-mod stream;
-mod tree;
-mod validate;
-
-use runner::Tier;
+use verif_harness::runner::Tier;
+use verif_harness::{props, runner};
 
 fn usage() -> ! {
     eprintln!("usage: verif-harness check <ID> [--tier quick|thorough] | replay <path> | list");
@@ -50,6 +40,42 @@ fn main() {
                 std::process::exit(2)
             });
             std::process::exit(runner::check(prop, tier, seed));
+        }
+        Some("fuzzable") => {
+            // "<ID> <max input length>" per line
+            for id in runner::FUZZABLE.iter() {
+                let prop = props.iter().find(|p| p.id == *id).unwrap();
+                println!("{} {}", id, prop.max_len);
+            }
+        }
+        Some("emit-corpus") => {
+            // emit-corpus <ID> <dir> <count>
+            let id = args.get(2).unwrap_or_else(|| usage());
+            let dir = args.get(3).unwrap_or_else(|| usage());
+            let count: usize = args.get(4).and_then(|s| s.parse().ok()).unwrap_or(64);
+            let seed: u64 = std::env::var("VERIF_SEED").ok().and_then(|s| s.parse().ok()).unwrap_or(1);
+            let prop = props.iter().find(|p| p.id == id).unwrap_or_else(|| usage());
+            runner::emit_corpus(prop, dir, seed, count);
+        }
+        Some("merge-fuzz") => {
+            // merge-fuzz <ID> <wall seconds> <dir with stats-*.json and log-*.txt>
+            let id = args.get(2).unwrap_or_else(|| usage());
+            let wall: f64 = args.get(3).and_then(|s| s.parse().ok()).unwrap_or(0.0);
+            let dir = args.get(4).unwrap_or_else(|| usage());
+            let mut stats = Vec::new();
+            let mut logs = Vec::new();
+            if let Ok(rd) = std::fs::read_dir(dir) {
+                for e in rd.filter_map(|e| e.ok()) {
+                    let name = e.file_name().to_string_lossy().to_string();
+                    if name.starts_with("stats-") {
+                        stats.push(e.path().display().to_string());
+                    } else if name.starts_with("log-") {
+                        logs.push(e.path().display().to_string());
+                    }
+                }
+            }
+            let violations: u64 = args.get(5).and_then(|s| s.parse().ok()).unwrap_or(0);
+            runner::merge_fuzz(id, &stats, &logs, wall, violations);
         }
         Some("replay") => {
             let path = args.get(2).unwrap_or_else(|| usage());
